@@ -59,7 +59,7 @@ class SrtContext:
         FontStyleType.italic
       ],
       StyleProperties.TextDecoration: [
-        TextDecorationType.underline
+        # Every values
       ],
       StyleProperties.Color: [
         # Every values
